@@ -34,7 +34,7 @@ QUERIES = [("*", [(n, i) for i, n in enumerate(NAMES)]), ("box.*", [("x", 1), ("
            ("box.inner.z", [("z", 3)]), ("box", []), ("zz.*", []), ("zz", []), ("boxer", [("boxer", 4)]), ("bo.*", [])]
 
 
-@contract(NL + ".query", ["C17"], name="NodeList.query")
+@contract(NL + ".query", ["C17", "C19"], name="NodeList.query")
 def _(c):
     c.bound = BOUND
     for q, want in QUERIES:
